@@ -18,7 +18,10 @@ type Config struct {
 	Imports    bool // several packages with imports
 	Services   bool
 	Topics     bool
-	PFiles     bool // hand-written .proto files in local packages
+	Entities   bool // entity declarations (keys, data, statuses, events; J5sEntity.v)
+	// single-line descriptions on declarations, properties and enum options (J5sComments.v)
+	Descriptions bool
+	PFiles       bool // hand-written .proto files in local packages
 	// percentage of inline types that are named like one of their enclosing messages
 	AncestorNames int
 	MaxPackages   int
@@ -27,7 +30,7 @@ type Config struct {
 
 func DefaultConfig() Config {
 	return Config{MaxDepth: 4, MaxFields: 7, Oneofs: true, Containers: true, Refs: true, Imports: true,
-		Services: true, Topics: true, PFiles: true, AncestorNames: 2, MaxPackages: 3, MaxFiles: 3}
+		Services: true, Topics: true, Entities: true, Descriptions: true, PFiles: true, AncestorNames: 2, MaxPackages: 3, MaxFiles: 3}
 }
 
 type typeEntry struct {
@@ -134,7 +137,12 @@ func enumValueNames(name string, e *Enum) []string {
 	if pfx == "" {
 		pfx = strcase.ToScreamingSnake(name) + "_"
 	}
-	out := []string{pfx + "UNSPECIFIED"}
+	// a FIRST option ending in UNSPECIFIED is the zero value itself; otherwise the implicit
+	// <PREFIX>UNSPECIFIED precedes the options
+	var out []string
+	if len(e.Opts) == 0 || !strings.HasSuffix(e.Opts[0], "UNSPECIFIED") {
+		out = append(out, pfx+"UNSPECIFIED")
+	}
 	for _, o := range e.Opts {
 		if strings.HasPrefix(o, pfx) {
 			out = append(out, o)
@@ -154,20 +162,56 @@ func (g *Gen) optionName(first bool) string {
 	if g.R.Chance(20) {
 		o += fmt.Sprint(g.R.Intn(5))
 	}
-	if !first && g.R.Chance(12) {
+	// not first: ends like the zero value, is not the zero value; first (rarely): a zero value
+	// with a name of its own (STATUS_OLD_UNSPECIFIED = 0)
+	if (!first && g.R.Chance(12)) || (first && g.R.Chance(3)) {
 		o += "_UNSPECIFIED"
 	}
 	return o
 }
 
-func (g *Gen) enum(name string) *Enum {
+// enum draws an enum; allowEmpty: `enum X {}` without options may come out (declared enums only:
+// an inline `field f enum { }` without anything in it is read as an enum field without schema
+// and rejected, "unhandled enum schema type <nil>" - outside the documented language).
+var descWords = []string{"the", "owner", "of", "this", "record", "Initial", "status", "x", "y", "a 2nd", "see API", "id", "set when done", "not used", "in UTC"}
+
+// description draws a single-line description (letters, digits, spaces), "" most of the time.
+func (g *Gen) description(pct int) string {
+	if !g.Cfg.Descriptions || !g.R.Chance(pct) {
+		return ""
+	}
+	n := g.R.Range(1, 4)
+	parts := make([]string, n)
+	for i := range parts {
+		parts[i] = vh.Pick(g.R, descWords)
+	}
+	g.Stats["description"]++
+	return strings.Join(parts, " ")
+}
+
+func (g *Gen) enum(name string, allowEmpty bool) *Enum {
 	e := &Enum{Name: name}
+	defer func() {
+		for _, o := range e.Opts {
+			if d := g.description(12); d != "" {
+				if e.OptDesc == nil {
+					e.OptDesc = map[string]string{}
+				}
+				e.OptDesc[o] = d
+			}
+		}
+	}()
 	if g.R.Chance(20) {
 		e.Prefix = strings.ToUpper(vh.Pick(g.R, words)) + "_"
 	}
 	n := g.R.Range(1, 5)
+	if allowEmpty && g.R.Chance(6) {
+		g.Stats["enum_without_options"]++
+		return e // `enum X {}`: only the implicit zero value
+	}
 	seen := map[string]bool{}
 	if g.R.Chance(15) {
+		g.Stats["enum_explicit_unspecified"]++
 		e.Opts = append(e.Opts, "UNSPECIFIED")
 		seen["UNSPECIFIED"] = true
 	}
@@ -432,7 +476,7 @@ func (g *Gen) item(sc *scope, pname string, depth int, inOneof bool) (*Field, bo
 			over = g.rawTypeName()
 			name = over
 		}
-		e := g.enum(over)
+		e := g.enum(over, false)
 		if !claimEnum(sc.symbols, name, e) {
 			return nil, false
 		}
@@ -525,6 +569,7 @@ func (g *Gen) property(sc *scope, depth int, inOneof bool) *Property {
 			}
 		}
 	}
+	p.Desc = g.description(20)
 	return p
 }
 
@@ -539,17 +584,17 @@ func (g *Gen) nestedDecl(symbols map[string]bool, path []string, depth int, allo
 			kind = "oneof"
 		}
 		if kind == "enum" {
-			e := g.enum(name)
+			e := g.enum(name, true)
 			if !claimEnum(symbols, name, e) {
 				continue
 			}
-			return &Nested{Kind: "enum", Name: name, Enum: e}
+			return &Nested{Kind: "enum", Name: name, Enum: e, Desc: g.description(25)}
 		}
 		if symbols[name] {
 			continue
 		}
 		symbols[name] = true
-		n := &Nested{Kind: kind, Name: name}
+		n := &Nested{Kind: kind, Name: name, Desc: g.description(25)}
 		self := append(append([]string{}, path...), name)
 		sc := newScope(self)
 		// explicitly nested declarations first claim their names, so that inline names avoid them
@@ -796,6 +841,8 @@ func (g *Gen) Bundle() (*Bundle, string) {
 					decls = append(decls, &Element{Kind: "service"})
 				case g.Cfg.Topics && r < 24:
 					decls = append(decls, &Element{Kind: "topic"})
+				case g.Cfg.Entities && r < 31:
+					decls = append(decls, &Element{Kind: "entity"})
 				default:
 					decls = append(decls, &Element{Kind: "schema"})
 				}
@@ -811,6 +858,12 @@ func (g *Gen) Bundle() (*Bundle, string) {
 						continue
 					}
 					g.Stats["topic_"+e.Topic.Kind]++
+				case "entity":
+					e.Entity = g.entity()
+					if e.Entity == nil {
+						continue
+					}
+					g.Stats["entity"]++
 				default:
 					n := g.nestedDecl(st.symbols, nil, 0, true)
 					if n == nil {
